@@ -9,7 +9,7 @@ MODULES = ["Mimium.Props.C16"]
 
 # renaming pools: plain fresh names, names resembling compiler-generated ones, leading underscore, Unicode XID
 def pools(extracted, avoid=()):
-    gen_like = ["lambda_{i}", "__dt{i}", "record_update_temp{i}", "closure_{i}", "_mimium_tmp{i}", "state_{i}", "alloc{i}", "_mimium_global", "_mimium_getnow{i}", "dsp{i}", "mimium_main{i}"]
+    gen_like = ["lambda_{i}", "__dt{i}", "record_update_temp{i}", "closure_{i}", "_mimium_tmp{i}", "state_{i}", "alloc{i}", "_mimium_global{i}", "_mimium_global_{i}", "_mimium_getnow{i}", "dsp{i}", "mimium_main{i}"]
     for g in extracted.get("generated_name_patterns", []):
         if g not in gen_like:
             gen_like.append(g)
@@ -20,6 +20,32 @@ def pools(extracted, avoid=()):
         "underscore": ["_{i}x", "__{i}"],
         "unicode": ["変数{i}", "é{i}", "ω_{i}"],
     }
+
+
+# `_mimium_global` itself is a RESERVED word since the repair of finding F15 (the compiler wraps the program in a function of that
+# name and recognises it by the name): like a keyword it is outside the renaming pools (look-alikes `_mimium_global{i}`,
+# `_mimium_global_{i}` are in), and every way of binding it must be answered by the diagnostic, never by a crash or a wrong result
+RESERVED_PROBES = [
+    ("let", "fn dsp(){ let _mimium_global = 1.0\n _mimium_global }\n"),
+    ("function", "fn _mimium_global(){ 1.0 }\nfn dsp(){ _mimium_global() }\n"),
+    ("parameter", "fn f(_mimium_global){ _mimium_global + 1.0 }\nfn dsp(){ f(1.0) }\n"),
+    ("global", "let _mimium_global = 2.0\nfn dsp(){ _mimium_global }\n"),
+    ("lambda", "fn dsp(){ (|_mimium_global| { _mimium_global })(1.0) }\n"),
+]
+
+
+def reserved_probe(ctx):
+    cases = [dict(id="reserved:" + n, src=src, sx=None, inputs=[], times=4) for n, src in RESERVED_PROBES]
+    res = pc.run_batch(cases, want_model=False, nshards=1)
+    bad = [(c, res[c["id"]]) for c in cases
+           if not all(o.startswith("compile-error") and "`_mimium_global` is reserved" in o for o in res[c["id"]][:2])]
+    if bad:
+        c, r = bad[0]
+        ctx.violation(f"the reserved identifier `_mimium_global` bound by user code ({c['id']}) is not answered by the reserved-name diagnostic "
+                      f"on both back ends (vm: {r[0][:100]} | wasm: {r[1][:100]}) in {len(bad)} of {len(cases)} positions:\n{c['src']}",
+                      {"orig_src": "fn dsp(){ let zz0 = 1.0\n zz0 }\n", "src": c["src"], "times": 4, "transform": "rename:reserved-word",
+                       "vm": r[0][:1500], "wasm": r[1][:1500]})
+    return {"positions": len(cases), "answered_by_diagnostic": len(cases) - len(bad)}
 
 
 def transforms(p, rng, extracted, avoid=()):
@@ -107,6 +133,7 @@ def main(ctx, args):
                 nontriv.add(hash(bycase[cid]["src"]))
                 if len(samples) < 3 and stats["evaluations"] % 301 == 7:
                     samples.append({"transform": tname, "src": bycase[cid]["src"][:1200]})
+    reserved_cov = reserved_probe(ctx) if not args.replay else {}
     kcases = [dict(id=k["id"] + "|o", src=k["orig_src"], sx=None, inputs=[], times=k.get("times", 4)) for k in known if "src" in k] + \
              [dict(id=k["id"] + "|t", src=k["src"], sx=None, inputs=[], times=k.get("times", 4)) for k in known if "src" in k]
     kres = pc.run_batch(kcases, backends="vm", want_model=False, nshards=1) if kcases else {}
@@ -137,5 +164,6 @@ def main(ctx, args):
         "failures": len(failures),
         "per_transform": {k: v for k, v in stats.items() if k.startswith("tf_")},
         "orig_differs_from_model": stats["orig_differs_from_model"],
+        "reserved_word__mimium_global": reserved_cov,
     })
     ctx.finish("proof")
